@@ -60,7 +60,7 @@ def main(ctx, replay=None):
     ctx.assumptions += ["the rule table of Writer.tla is the documented one as of the pinned commit", "files print 15 significant digits (rtol 1e-12)"]
     wd = Workdir()
     try:
-        nsets = 2 if ctx.tier == "quick" else 8
+        nsets = 2 if ctx.tier == "quick" else 20
         for n in range(nsets):
             settings = {"NT": int(rng.integers(3, 7)), "DT": float(rng.choice([100, 62.5, 250])), "T_MIN": float(rng.choice([0, 150, 300])),
                         "NTV": int(rng.integers(6, 12))}
